@@ -25,6 +25,28 @@ CLAIMS: dict = {
         technique='contract-based deductive verification: AST->VC symbolic execution + SQL->FOL, family equality '
                   'obligations discharged by z3',
         engines=['pyvc', 'sqlvc', 'bounded']),
+    'C02': dict(
+        category='proof',
+        text='Per element kind (lexicon, dependency, entry, lemma, form, pronunciation, tag, sense, relation, example, '
+             'count, synset, definition, ILI definition, syntactic behaviour) and per LMF version the composition '
+             'real writer (_build_*/_dump_*, _meta_dict) -> A-XML bridge -> real expat handlers (start/char_data/end of '
+             '_make_parser) -> real _validate_* is executed symbolically on a record in the loader normal form (shapes '
+             'generated from the TypedDicts) and proved equal to the input restricted to what the version expresses: '
+             'presence and value of every attribute, metadata key, text, converted value (int/bool/token lists), child '
+             'lists through a free representative (all elements, order kept), for all values and all paths; nothing '
+             'the writer emits makes the reader raise. dump() header/namespace/lexicon order and attribute quoting are '
+             'decided on the symbolically executed real dump().',
+        note='Assumed A-XML: ElementTree.tostring / quoteattr + expat deliver names, attributes, child order and '
+             'character data unchanged (the escaping itself is only covered by the bounded sweep: generated resources '
+             'with quotes, <, &, tab, newline, CR, non-BMP characters, every optional piece absent once, extensions, '
+             '4 versions, equality + byte fixed point - labelled bounded, not counted as proved). A-SPLIT, '
+             'A-PY-INTSTR (int(str(n)) == n). Known finding K7 (optional attributes holding the empty string are '
+             'dropped) is reported as KNOWN-FINDING and re-proved under its restriction. The per-kind results compose '
+             'to whole resources by structural induction (hand argument, DESIGN).',
+        technique='contract-based deductive verification: symbolic execution of writer, reader and validator source '
+                  '(AST->VC), per-field equality obligations discharged by z3; bounded native round trip for the '
+                  'serialisation layer',
+        engines=['pyvc', 'bounded']),
     'C04': dict(
         category='proof',
         text='Per query function of wn/_queries.py (SQL text and bind map extracted by symbolic execution of the '
